@@ -211,7 +211,8 @@ def run(F, R, tier):
         oks = [s for t, s in r["ends"] if t == "ok"]
         evs = {e[0] for s in oks for e in s.events}
         R.ob("loop-exit-jump", "%s emits one Jump (%s)" % (var, "placeholder handed to the chosen loop's break_positions" if var == "Break" else "to the chosen loop's begin"),
-             all([e[0] for e in s.emits] == ["Jump"] for s in oks) and (("break" if var == "Break" else "continue") in evs), str(sorted(evs)), F.loc(g))
+             all([e[0] for e in s.emits if e != ("…",)][-1:] == ["Jump"] and all(e[0] in ("Pop", "Jump") for e in s.emits if e != ("…",)) and
+                 sum(1 for e in s.emits if e[0] == "Jump") == 1 for s in oks) and (("break" if var == "Break" else "continue") in evs), str(sorted(evs)), F.loc(g))
     cs = F.fn(C + "compile_statement")
     if cs is not None:
         b = H.body_of(cs)
@@ -220,6 +221,24 @@ def run(F, R, tier):
         R.ob("label-search-order", "labelled break/continue search loop_stack from the innermost loop outwards", len(loops) == 2 and all(t.endswith(".rev()") for t in loops), str(loops), F.loc(cs))
         cmps = [H.render(x) for x in H.walk(b) if x.get("k") == "bin" and x["op"] == "==" and "label.literal" in H.render(x)]
         R.ob("label-search-order", "a loop is chosen when its label equals the statement's label", len(cmps) == 2 and all(c == "(loop_label_name == &label.literal)" for c in cmps), str(cmps), F.loc(cs))
+        # the search skips loops that do not carry the label: it is left only by the `return Ok(())` of a hit
+        bad_exits = []
+        for x in H.walk(b):
+            if x.get("k") == "match" and x.get("src", "").startswith("ForLoopDesugar") and "loop_stack" in H.render(x["scrut"]):
+                some = [a for m2 in H.walk(x["arms"][0]["body"]) if m2.get("k") == "match" and m2.get("src", "").startswith("ForLoopDesugar") for a in m2["arms"]
+                        if "Some" in H.render_pat(a["pat"])]
+                for a in some:
+                    for y in H.walk(a["body"]):
+                        if y.get("k") == "break" or (y.get("k") == "ret" and H.render(y.get("e")) != "v1::Ok(())"):
+                            bad_exits.append(H.render(y)[:60])
+                        if y.get("k") == "let" and "els" in y:
+                            pass
+                    for st in H.walk(a["body"]):
+                        if st.get("k") == "block":
+                            for s2 in st.get("stmts", []):
+                                if s2.get("k") == "let" and s2.get("els") is not None and not all(z.get("k") != "break" for z in H.walk(s2["els"])):
+                                    bad_exits.append("let-else break")
+        R.ob("label-search-order", "a loop that does not carry the label is skipped; only a hit ends the search", not bad_exits, str(bad_exits), F.loc(cs))
         plain = [H.render(x) for x in H.walk(b) if x.get("k") == "mcall" and x["m"] in ("last", "last_mut") and "loop_stack" in H.render(x["recv"])]
         R.ob("label-search-order", "plain break/continue use the innermost loop (loop_stack.last)", len(plain) == 2, str(plain), F.loc(cs))
     # ---- (b) if / else ---------------------------------------------------------------------------------------------------------------
